@@ -10,14 +10,16 @@ structure St where
   running : Bool := false
   maxConn : Int := 0
   eps : List (Endpoint Nat) := []
-  active : List Bool := []     -- one entry per successful dial, in order; false once closed
+  /-- one entry per stream id that was ever dialled successfully, in order: is a record for it live,
+      which target does it talk to, was it opened by the ingress agent (session key not the harness's) -/
+  slots : List (Bool × Nat × Bool) := []
   valid : Bool := true
 
 def liveTargets : Nat := 6
 def selfId : Nat := 1
 def otherId : Nat := 2
 
-def count (s : St) : Int := (s.active.filter id).length
+def count (s : St) : Int := (s.slots.filter (·.1)).length
 
 def parseInt (s : String) : Option Int :=
   if s.startsWith "-" then (s.drop 1).toString.toNat?.map (fun n => -(n : Int)) else s.toNat?.map (fun n => (n : Int))
@@ -40,8 +42,25 @@ def doOpen (s : St) (key : Bytes) : St × String :=
   | .notRunning => (s, "notrunning")
   | .refuse c => (s, s!"err {c}")
   | .dial t =>
-    if t < liveTargets then ({ s with active := s.active ++ [true] }, s!"dial {t}")
+    if t < liveTargets then ({ s with slots := s.slots ++ [(true, t, false)] }, s!"dial {t}")
     else (s, s!"dialerr {Gen.C20.errConnectionRefused}")
+
+def setSlot : List (Bool × Nat × Bool) → Nat → (Bool × Nat × Bool) → List (Bool × Nat × Bool)
+  | [], _, _ => []
+  | _ :: bs, 0, v => v :: bs
+  | b :: bs, i+1, v => b :: setSlot bs i v
+
+/-- STREAM_OPEN on the stream id of slot `i`: the same decision as for a fresh id (the live record
+    still counts against the limit); a successful dial REPLACES the record (the displaced connection
+    is closed, the slot is counted once); a refusal or a failed dial leaves the old record alone. -/
+def doReopen (s : St) (i : Nat) (key : Bytes) : St × String :=
+  if i ≥ s.slots.length then doOpen s key
+  else match handleOpen s.running s.maxConn (count s) s.eps key with
+    | .notRunning => (s, "notrunning")
+    | .refuse c => (s, s!"err {c}")
+    | .dial t =>
+      if t < liveTargets then ({ s with slots := setSlot s.slots i (true, t, false) }, s!"dial {t}")
+      else (s, s!"dialerr {Gen.C20.errConnectionRefused}")
 
 def parsePath : String → Option (List Nat)
   | "none" => some []
@@ -51,10 +70,16 @@ def parsePath : String → Option (List Nat)
   | "otherself" => some [otherId, selfId]
   | _ => none
 
-def setFalse : List Bool → Nat → List Bool
+def closeSlot : List (Bool × Nat × Bool) → Nat → List (Bool × Nat × Bool)
   | [], _ => []
-  | _ :: bs, 0 => false :: bs
-  | b :: bs, i+1 => b :: setFalse bs i
+  | (_, t, g) :: bs, 0 => (false, t, g) :: bs
+  | b :: bs, i+1 => b :: closeSlot bs i
+
+/-- mark the slot the last op created (if it created one) as opened by the ingress agent -/
+def markIngress (before after : St) : St :=
+  if after.slots.length > before.slots.length then
+    { after with slots := after.slots.dropLast ++ (after.slots.getLast?.map (fun (l, t, _) => (l, t, true))).toList }
+  else after
 
 def step (s : St) (line : String) : St × String :=
   match tokens line with
@@ -92,11 +117,24 @@ def step (s : St) (line : String) : St × String :=
         match dispatch selfId Gen.C20.addrTypeDomain (wireAddr (ingressAddr key)) [] with
         | .forward key' =>
           let (s', out) := doOpen s key'
-          (s', if out == "notrunning" then "none" else if out.startsWith "dialerr " then "err " ++ (out.drop 8).toString else out)
+          (markIngress s s', if out == "notrunning" then "none" else if out.startsWith "dialerr " then "err " ++ (out.drop 8).toString else out)
         | _ => (s, "none")
+  | ["reopen", i, k] =>
+    match i.toNat?, bytesOfHex k with
+    | some i, some key => doReopen s i key
+    | _, _ => (s, "bad-op")
+  | ["data", i] =>
+    match i.toNat? with
+    | some i =>
+      match s.slots[i]? with
+      | some (true, t, false) => (s, s!"data {t}")
+      | some (true, _, true) => (s, "data skipped")
+      | some (false, _, true) => (s, "data skipped")
+      | _ => (s, "data none")
+    | none => (s, "bad-op")
   | ["close", i] =>
     match i.toNat? with
-    | some i => ({ s with active := setFalse s.active i }, "ok")
+    | some i => ({ s with slots := closeSlot s.slots i }, "ok")
     | none => (s, "bad-op")
   | _ => (s, "bad-op")
 
@@ -133,8 +171,10 @@ def specStep (s : St) (line : String) : St × String :=
     if out.startsWith "panic" || out.startsWith "crash" then (s, "fail crashed")
     else
     let o := tokens out
+    -- the implementation's own answers drive the reconstruction of its state
+    let tgt := fun (o : List String) => match o with | _ :: t :: _ => t.toNat?.getD 99 | _ => 99
     let advance := fun (s : St) => match o with
-      | "dial" :: _ => { s with active := s.active ++ [true] }
+      | "dial" :: _ => { s with slots := s.slots ++ [(true, tgt o, false)] }
       | _ => s
     match tokens op with
     | "reset" :: _ => ((step s op).1, "ok")
@@ -144,6 +184,25 @@ def specStep (s : St) (line : String) : St × String :=
       match bytesOfHex k with
       | some key => (advance s, judge s (some key) o)
       | none => (s, "bad-op")
+    | ["reopen", i, k] =>
+      match i.toNat?, bytesOfHex k with
+      | some i, some key =>
+        let s' := if i ≥ s.slots.length then advance s
+                  else match o with
+                    | "dial" :: _ => { s with slots := setSlot s.slots i (true, tgt o, false) }
+                    | _ => s
+        (s', judge s (some key) o)
+      | _, _ => (s, "bad-op")
+    | ["data", i] =>
+      -- data sent under the session of the last ACKed open of a stream reaches the target that open
+      -- was answered with (which `judge` tied to the requested key), or nothing
+      match i.toNat?, o with
+      | some i, ["data", j] =>
+        if j == "none" || j == "skipped" then (s, "ok")
+        else match s.slots[i]? with
+          | some (_, t, _) => (s, if toString t == j then "ok" else "fail data-reached-wrong-target")
+          | none => (s, "fail data-reached-wrong-target")
+      | _, _ => (s, "fail unparsable-output")
     | ["ingress", k, _w] =>
       match bytesOfHex k with
       | some key =>
